@@ -1,4 +1,4 @@
-import ScenicModel.Props.C11Final
+import ScenicModel.Props.C11Scenario
 import ScenicModel.Props.C11Syntax
 import ScenicModel.Model.LTLBuild
 import ScenicModel.Gen.LTL
@@ -8,10 +8,12 @@ import ScenicModel.Gen.LTL
 Property theorems, instantiated on the data regenerated on every run:
 
 * `Gen.LTL.monCfg`  — the scan bound of `UntilMonitor` in the installed `rv_ltl/monitor.py`;
-* `Gen.LTL.rule`    — the verdict sets of `DynamicScenario._step` / `_stop`, `falsifiedByInner`, the initial
-                      `lastValue`, and whether `_addDynamicRequirement` gives a running scenario a monitor;
+* `Gen.LTL.rule`    — the verdict sets of `DynamicScenario._step` / `_stop` / `_addDynamicRequirement`,
+                      `falsifiedByInner`, the initial `lastValue`, whether `Implies` defines `evaluate()`;
 * `Gen.LTL.ctorMap` — which rv_ltl proposition each class of `propositions.py` builds, operands in which order;
-* `Gen.LTL.sugar`   — the expansions of rv_ltl's sugar monitors (`Eventually`, `Always`, `Implies`).
+* `Gen.LTL.sugar`   — the expansions of rv_ltl's sugar monitors (`Eventually`, `Always`, `Implies`);
+* `Gen.LTL.atomCoerce`, `Gen.LTL.evalForms` — `bool()` on atom values in `PropositionMonitor.update`, the bodies of
+                      the `evaluate()` methods.
 
 ## The full statements, and what is proved
 
@@ -19,23 +21,28 @@ FULL (C11):  for every formula `f`, trace `σ`, number of steps `N ≥ 1`:
   (1) `run monCfg rule f σ N = accepted ↔ sat σ N f 0`                          (`accept_iff`)
   (2) `run … = rejectedAt t ∧ t + 1 < N → no continuation of the first t+1 steps satisfies f`
                                                                                   (`early_reject_hopeless`)
-  (3) the same for a `require` executed inside a running scenario              (`dynamic_require_monitored`)
+  (3) the same for a `require` executed while its scenario is running, counted from the step in which it
+      executes                                                                   (`dynamic_require_monitored`)
+  (4) a scenario with any number of requirements, registered before its start or executed by its compose
+      block, is accepted iff each of them is satisfied on its own window        (`scenario_accept_iff`)
 
-With the sources as they are, (1) and (2) are **false** for some formulas and (3) is false for all
-non-trivial ones — see the `*_witness` theorems (each is replayed on the real code by `tools/props/c11.py`):
+(3) and (4) hold of the repaired code (`_addDynamicRequirement` now creates the monitor, updates it at once and
+keeps it in the list); they are proved without any hypothesis on the rule beyond the side conditions
+re-decided on every run.  `scenario_accept_decomposes` and `scenario_reject_culprit` hold for **every** formula.
+
+With the installed rv_ltl, (1) and (2) are **false** for some formulas — see the `*_witness` theorems (each is
+replayed on the real code by `tools/props/c11.py`):
 
 * the installed rv_ltl scans `range(i, min(i + k, last))` in `UntilMonitor`, which is only right at `i = 0`:
   an `until` below a temporal operator is mis-evaluated (`nested_until_witness`);
 * `UntilMonitor` commits to the first index where its right operand is *currently* truthy: with a temporal
   right operand an earlier index may still become true, so its FALSE is premature
-  (`until_premature_false_witness`);
-* `_addDynamicRequirement` appends to `_temporalRequirements` after `_start` built the monitors
-  (`dynamic_require_witness`).
+  (`until_premature_false_witness`).
 
 Proved (`…_partial` = the full statement restricted to the stated fragment; nothing else is missing):
-(1) on `okZero monCfg false ∧ okZero monCfg true`, (2) on `okZero monCfg true`, (3) under
-`rule.dynMonitored = true`.  `verdict_sound_complete_exact_bound` shows that (1)'s exactness part holds for
-**every** formula as soon as rv_ltl uses the textbook bound, so the fragment is forced by the package only.
+(1) on `okZero monCfg false ∧ okZero monCfg true`, (2) on `okZero monCfg true`, (3), (4) on the same fragments.
+`verdict_sound_complete_exact_bound` shows that (1)'s exactness part holds for **every** formula as soon as
+rv_ltl uses the textbook bound, so the fragment is forced by the third-party package only.
 -/
 namespace Scenic.C11
 open Scenic.LTL Scenic.Gen.LTL
@@ -57,6 +64,16 @@ theorem gen_temporal_classes : temporalClasses = canonicalTemporal := by decide
 
 /-- rv_ltl's sugar monitors expand as `evalAt` assumes -/
 theorem gen_sugar_canonical : sugar = canonicalSugar := by decide
+
+/-- a temporal `require` executed while its scenario is running is tested on its first verdict exactly like in
+    every later step (rejected on FALSE only), and `Implies` can be evaluated on the spot -/
+theorem gen_runtime_canonical : rule.RuntimeCanonical := by decide
+
+/-- `PropositionMonitor.update` hands rv_ltl `bool(value)`, so a `None`-valued atom is a false atom -/
+theorem gen_atom_coerced : atomCoerce = true := by decide
+
+/-- the `evaluate()` methods are the ones `F.evalPy` mirrors (truth values, not bitwise operators) -/
+theorem gen_eval_forms_canonical : evalForms = canonicalEvalForms := by decide
 
 /-! ## (A) the verdict read at the end is exact -/
 
@@ -195,45 +212,106 @@ example : sceneOK monCfg rule (.always (.atom 0)) (ofRows [[false]]) = false := 
 /-! ## (F) requirements executed while a simulation is running -/
 
 /-- **runtime setup block** (a sub-scenario started by `do`): same criterion, counted from the step the
-    sub-scenario starts — needs `Implies.evaluate` for non-temporal implications -/
-theorem runtime_setup_accept_iff_partial (hI : rule.impliesEval = true) (f : F) (h0 : f.okZero monCfg false = true)
+    sub-scenario starts -/
+theorem runtime_setup_accept_iff_partial (f : F) (h0 : f.okZero monCfg false = true)
     (h1 : f.okZero monCfg true = true) (σ : Trace) (N : Nat) (hN : 0 < N) :
     runRuntimeSetup monCfg rule f σ N = .accepted ↔ sat σ N f 0 = true :=
-  LTL.runtime_setup_accept_iff monCfg rule gen_rule_canonical hI f h0 h1 σ N hN
-
-/-- the part that holds of the code as it stands: formulas without a non-temporal `implies` at the root path -/
-theorem runtime_setup_accept_iff_no_implies (f : F) (h0 : f.okZero monCfg false = true)
-    (h1 : f.okZero monCfg true = true) (he : f.prop = true → f.evaluable rule.impliesEval = true)
-    (σ : Trace) (N : Nat) (hN : 0 < N) :
-    runRuntimeSetup monCfg rule f σ N = .accepted ↔ sat σ N f 0 = true := by
-  unfold runRuntimeSetup
-  cases hp : f.prop with
-  | true =>
-    simp only [if_true]
-    rw [immediate_eq_run monCfg rule gen_rule_canonical f hp (he hp) σ N hN]
-    exact accept_iff monCfg rule gen_rule_canonical f h0 h1 σ N hN
-  | false => simp only [Bool.false_eq_true, if_false]; exact accept_iff monCfg rule gen_rule_canonical f h0 h1 σ N hN
+  LTL.runtime_setup_accept_iff monCfg rule gen_rule_canonical gen_runtime_canonical.2 f h0 h1 σ N hN
 
 example : runRuntimeSetup monCfg rule (.and (.tt) (.and (.atom 0) (.not (.atom 1)))) (ofRows [[true, false]]) 1 = .accepted := by decide
+example : runRuntimeSetup monCfg rule (.implies (.atom 0) (.atom 1)) (ofRows [[true, false]]) 1 = .rejectedAt 0 := by decide
 
-/-- **dynamic_require_monitored**: holds as soon as `_addDynamicRequirement` gives a running scenario a monitor
-    (and `Implies` can be evaluated) -/
-theorem dynamic_require_monitored (hd : rule.dynMonitored = true) (hI : rule.impliesEval = true) (f : F)
-    (h0 : f.okZero monCfg false = true) (h1 : f.okZero monCfg true = true) (σ : Trace) (N : Nat) (hN : 0 < N) :
-    runDynamic monCfg rule f σ N = .accepted ↔ sat σ N f 0 = true :=
-  LTL.dynamic_require_monitored monCfg rule gen_rule_canonical hd hI f h0 h1 σ N hN
+/-- **dynamic_require_monitored**: a `require` executed inside a running scenario (compose block) is judged
+    on the steps from the one in which it executes to the end of that scenario -/
+theorem dynamic_require_monitored_partial (f : F) (h0 : f.okZero monCfg false = true)
+    (h1 : f.okZero monCfg true = true) (σ : Trace) (d N : Nat) (hN : 0 < N) :
+    runDynamic monCfg rule f (shift σ d) N = .accepted ↔ sat (shift σ d) N f 0 = true :=
+  LTL.dynamic_require_monitored monCfg rule gen_rule_canonical gen_runtime_canonical f h0 h1 (shift σ d) N hN
 
-/-- witness: as the code stands a temporal requirement is never looked at — `require always a` with `a` false in
-    its second step is accepted -/
-theorem dynamic_require_witness (hd : rule.dynMonitored = false) :
-    runDynamic monCfg rule (.always (.atom 0)) (ofRows [[true], [false], [true]]) 3 = .accepted ∧
-      sat (ofRows [[true], [false], [true]]) 3 (.always (.atom 0)) 0 = false :=
-  ⟨dynamic_require_unmonitored_vacuous monCfg rule hd _ rfl _ _, by decide⟩
+example : runDynamic monCfg rule (.always (.atom 0)) (ofRows [[true], [false], [true]]) 3 = .rejectedAt 1 := by decide
+example : runDynamic monCfg rule (.eventually (.atom 0)) (shift (ofRows [[true], [false], [false]]) 1) 2 = .rejectedAt 1 := by
+  decide
 
-/-- witness: as the code stands `require a implies b` executed at run time raises instead of deciding -/
-theorem runtime_implies_witness (hI : rule.impliesEval = false) :
-    runDynamic monCfg rule (.implies (.atom 0) (.atom 1)) (ofRows [[false, false]]) 1 = .crashed ∧
-      sat (ofRows [[false, false]]) 1 (.implies (.atom 0) (.atom 1)) 0 = true :=
-  ⟨(implies_not_evaluable_crashes monCfg rule hI _ _ rfl _ _).1, by decide⟩
+/-- … for **every** formula it goes through exactly the checks of a requirement registered before the start -/
+theorem dynamic_require_same_checks (f : F) (hp : f.prop = false) (σ : Trace) (N : Nat) (hN : 0 < N) :
+    runDynamic monCfg rule f σ N = run monCfg rule f σ N := by
+  unfold runDynamic
+  simp only [hp, Bool.false_eq_true, if_false, gen_runtime_canonical.1]
+  exact runRegistered_eq_run monCfg rule f σ N hN
+
+/-- … and it is rejected before the end only when no continuation could satisfy it -/
+theorem dynamic_early_reject_hopeless_partial (f : F) (hp : f.prop = false) (h1 : f.okZero monCfg true = true)
+    (σ : Trace) (N t : Nat) (hN : 0 < N) (h : runDynamic monCfg rule f σ N = .rejectedAt t) (ht : t + 1 < N)
+    (σ' : Trace) (m : Nat) (hag : Agree σ σ' (t + 1)) (hm : t + 1 ≤ m) : sat σ' m f 0 = false :=
+  LTL.dynamic_early_reject_hopeless monCfg rule gen_rule_canonical gen_runtime_canonical f hp h1 σ N t hN h ht σ' m hag hm
+
+/-- a non-temporal `require` executed at run time on atoms with arbitrary (non-Boolean) values: only the truth
+    values of the atoms matter (`evaluate()` + `if not result`) -/
+theorem runtime_values_truth_only (p : F) (hp : p.prop = true) (v : Nat → PyVal) :
+    (p.evalPy v).truth = p.pval (fun a => (v a).truth) := evalPy_truth v p hp
+
+example : ((F.and (.atom 0) (.atom 1)).evalPy
+    (fun a => if a = 0 then { truth := true, isNone := false, tag := 2 } else { truth := true, isNone := false, tag := 1 })).truth = true := by
+  decide
+
+/-- the monitor sees the truth value of every atom, `None` included -/
+theorem monitor_sees_truth_values (v : PyVal) : atomInput atomCoerce v = some v.truth := by
+  rw [gen_atom_coerced]; rfl
+
+/-! ## (G) a scenario with its list of requirement monitors -/
+
+/-- **scenario_accept_decomposes** (every formula): the loop of `_step` / `_addDynamicRequirement` / `_stop` over the
+    growing monitor list accepts iff each requirement is accepted on its own window -/
+theorem scenario_accept_decomposes (init : List F) (script : Nat → List F) (σ : Trace) (N : Nat) (hN : 0 < N) :
+    simulate monCfg rule init script σ N = .accepted ↔
+      (∀ f ∈ init, run monCfg rule f σ N = .accepted) ∧
+      (∀ s, s < N → ∀ f ∈ script s, run monCfg rule f (shift σ s) (N - s) = .accepted) := by
+  rw [simulate_accepted_iff monCfg rule rule.stepReject gen_runtime_canonical.1 init script σ N hN]
+  constructor
+  · rintro ⟨h1, h2⟩
+    refine ⟨h1, fun s hs f hf => ?_⟩
+    rw [← runRegistered_eq_run monCfg rule f (shift σ s) (N - s) (by omega)]
+    exact h2 s hs f hf
+  · rintro ⟨h1, h2⟩
+    refine ⟨h1, fun s hs f hf => ?_⟩
+    rw [runRegistered_eq_run monCfg rule f (shift σ s) (N - s) (by omega)]
+    exact h2 s hs f hf
+
+/-- **scenario_reject_culprit** (every formula): a rejection in step `u` is caused by one requirement, in force
+    since step `start ≤ u`, whose own verdict in step `u` is FALSE — or falsy, after the last step -/
+theorem scenario_reject_culprit (init : List F) (script : Nat → List F) (σ : Trace) (N u : Nat) (hN : 0 < N)
+    (h : simulate monCfg rule init script σ N = .rejectedAt u) :
+    u < N ∧ ∃ (f : F) (start : Nat), ((f ∈ init ∧ start = 0) ∨ f ∈ script start) ∧ start ≤ u ∧
+      (verdictAt monCfg σ f start u = 1 ∨ (u = N - 1 ∧ truthy (verdictAt monCfg σ f start u) = false)) :=
+  simulate_rejected_culprit monCfg rule gen_rule_canonical gen_runtime_canonical.1 init script σ N u hN h
+
+/-- **scenario_accept_iff** on the fragment: accepted ⇔ every requirement's own trace, from the step it takes
+    effect to the end of the scenario, satisfies it -/
+theorem scenario_accept_iff_partial (init : List F) (script : Nat → List F)
+    (hi : ∀ f ∈ init, f.okZero monCfg true = true) (hs : ∀ s, ∀ f ∈ script s, f.okZero monCfg true = true)
+    (σ : Trace) (N : Nat) (hN : 0 < N) :
+    simulate monCfg rule init script σ N = .accepted ↔
+      (∀ f ∈ init, sat σ N f 0 = true) ∧
+      (∀ s, s < N → ∀ f ∈ script s, sat (shift σ s) (N - s) f 0 = true) :=
+  scenario_accept_iff monCfg rule gen_rule_canonical gen_runtime_canonical init script hi hs σ N hN
+
+/-- **scenario_early_reject_hopeless** on the fragment -/
+theorem scenario_early_reject_hopeless_partial (init : List F) (script : Nat → List F)
+    (hi : ∀ f ∈ init, f.okZero monCfg true = true) (hs : ∀ s, ∀ f ∈ script s, f.okZero monCfg true = true)
+    (σ : Trace) (N u : Nat) (hN : 0 < N) (h : simulate monCfg rule init script σ N = .rejectedAt u) (hu : u + 1 < N) :
+    ∃ (f : F) (start : Nat), ((f ∈ init ∧ start = 0) ∨ f ∈ script start) ∧ start ≤ u ∧
+      ∀ (σ' : Trace) (m : Nat), Agree σ σ' (u + 1) → u + 1 - start ≤ m → sat (shift σ' start) m f 0 = false :=
+  scenario_early_reject_hopeless monCfg rule gen_rule_canonical gen_runtime_canonical init script hi hs σ N u hN h hu
+
+/-- non-vacuity: a setup-block `always a` together with `require eventually b` executed by the compose block
+    in step 1 — accepted on one trace, rejected (by the dynamic requirement, at the stop) on another, rejected
+    early (by the first) on a third -/
+example :
+    let init := [F.always (.atom 0)]
+    let script := scriptOf [(1, F.eventually (.atom 1))]
+    simulate monCfg rule init script (ofRows [[true, true], [true, false], [true, true]]) 3 = .accepted ∧
+    simulate monCfg rule init script (ofRows [[true, true], [true, false], [true, false]]) 3 = .rejectedAt 2 ∧
+    simulate monCfg rule init script (ofRows [[true, true], [false, false], [true, true]]) 3 = .rejectedAt 1 := by
+  decide
 
 end Scenic.C11
